@@ -1,7 +1,7 @@
-(* Relay model: the C09 theorems derived from the invariants Inv (RelayInvP) and TInv (RelayTimerP). *)
+(* Relay model: the C09 theorems derived from the invariants Inv (RelayInv9P) and TInv (RelayTimerP). *)
 From Coq Require Import ZArith List Bool Lia.
 From Verif Require Import Base.Wrap Gen.GenConsts Gen.GenFrame Model.RelayItems Spec.RelayAccount
-  Proofs.RelayAssocP Proofs.RelayCoreP Proofs.RelayInvP Proofs.RelayTimerP.
+  Proofs.RelayAssocP Proofs.RelayCoreP Proofs.RelayInv9P Proofs.RelayTimerP.
 Import ListNotations.
 Local Open Scope Z_scope.
 
